@@ -57,13 +57,13 @@ func sessionCacheLedger(t *testing.T, r *ev.Run) {
 // open caches are entitled to hold (their configured capacities), whatever is rotated, revoked or read back.
 func capacityScenarios(t *testing.T, r *ev.Run) {
 	type shape struct {
-		name          string
-		skPol         string
-		skCap         int
-		ikPol         string
-		ikCap         int
-		shared        bool
-		openSessions  int
+		name         string
+		skPol        string
+		skCap        int
+		ikPol        string
+		ikCap        int
+		shared       bool
+		openSessions int
 	}
 	shapes := []shape{
 		{"sk-lru-1/ik-shared-lru-2", "lru", 1, "lru", 2, true, 3},
